@@ -55,3 +55,6 @@ adj_m = 1e5if x else 1e-5if y else 1E+5or 2
 adj_n = [1,2][0if x else 1]
 adj_o = {1:2for x in y}
 adj_p = 0if x else 00and 0_0is 0
+adj_q = 0 if y<1.else 2
+adj_r = 0 if y<1.5else 3
+adj_s = 0 if y<.5else 0 if y<5.else 0 if y<1_0.0_1else 4
